@@ -9,7 +9,7 @@
    operations, operations on removed agents and arbitrary recorded random outcomes. *)
 From Coq Require Import ZArith List Bool.
 From Coq Require Import Permutation.
-From Mesa Require Import Common.ListX Generated.Tables Model.CellSpace Proofs.CellSpaceProofs Proofs.CellSpaceRefine Proofs.CellSpaceBridge.
+From Mesa Require Import Common.ListX Generated.Tables Model.CellSpace Model.CellSpaceX Proofs.CellSpaceProofs Proofs.CellSpaceRefine Proofs.CellSpaceBridge Proofs.CellSpaceXProofs.
 Import ListNotations.
 Open Scope Z_scope.
 
@@ -347,6 +347,104 @@ Proof.
   destruct (Z.to_nat c) as [|[|[|[|[|n]]]]]; simpl; intros H; inversion H; discriminate.
 Qed.
 
+(* ================= round 3: breadth (Model/CellSpaceX.v: xstep / xexec extend step / exec by direct cell calls,
+   agents created mid-history, CellCollection views, fractional capacities; xrun_case is what the correspondence runs) *)
+
+(* (1) DIRECT calls of cell.add_agent / cell.remove_agent bypass agent.cell.  What survives them - for EVERY history,
+   direct calls included: the capacity bound, flag/layer = emptiness, empties, only created agents are listed, and the
+   empties collection never has agents. *)
+Theorem C06_mirror_partial_direct_calls : forall e n ops, caps_ok e -> 0 <= n ->
+  let x := xexec e (xinit n) ops in let s := xs x in
+  (forall c k, e_cap e c = Some k -> 0 < k -> zlen (content s c) <= k) /\
+  (forall c, flag s c = is_empty s c) /\
+  (forall c, In c (empties e s) <-> In c (cells_dom e) /\ content s c = []) /\
+  (forall a c, In a (content s c) -> 1 <= a <= born x) /\
+  coll_agents e s CEmpties = [].
+Proof. exact raw_calls_partial. Qed.
+Print Assumptions C06_mirror_partial_direct_calls.
+
+(* ... and what does not: the mirror itself is refuted by direct calls (the agent is listed in two cells while
+   agent.cell is still None) *)
+Theorem C06_mirror_refuted_by_direct_calls :
+  exists e ops, caps_ok e /\
+    let s := xs (xexec e (xinit 2) ops) in
+    In 1 (content s 0) /\ In 1 (content s 1) /\ ptr s 1 = None /\ reg s 1 = true.
+Proof.
+  exists ex_env, [CellAdd 0 1; CellAdd 1 1].
+  split; [exact C06_example_caps_ok|]. vm_compute. repeat split; left; reflexivity.
+Qed.
+Print Assumptions C06_mirror_refuted_by_direct_calls.
+
+(* (2) histories WITHOUT direct calls - API operations of all three agent classes, agents created in the middle,
+   collection queries: the full statement (this generalises C06_mirror / C06_listed_once / C06_capacity) *)
+Theorem C06_mirror_growing_population : forall e n ops, caps_ok e -> api_only ops = true ->
+  let s := xs (xexec e (xinit n) ops) in
+  Inv e s /\
+  (forall a c, reg s a = true \/ e_kind e a <> KFixed -> (ptr s a = Some c <-> In a (content s c))) /\
+  (forall a c, In a (content s c) ->
+     count_occ Z.eq_dec (content s c) a = 1%nat /\ forall c', In a (content s c') -> c' = c) /\
+  (forall c k, e_cap e c = Some k -> 0 < k -> zlen (content s c) <= k) /\
+  NoDup (coll_agents e s CAll).
+Proof. exact x_mirror. Qed.
+Print Assumptions C06_mirror_growing_population.
+
+Theorem C06_new_agent_is_nowhere : forall e n ops x' r, caps_ok e -> 0 <= n ->
+  let x := xexec e (xinit n) ops in
+  xstep e x NewAgent = (x', r) -> r <> NotApplicable ->
+  born x' = born x + 1 /\ xs x' = xs x /\ r = Ok [born x'] /\ forall c, ~ In (born x') (content (xs x') c).
+Proof. exact new_agent_fresh. Qed.
+Print Assumptions C06_new_agent_is_nowhere.
+
+Theorem C18_cellspace_atomic_growing_population : forall e frac n ops o x' k, caps_ok e -> api_only ops = true ->
+  let x := xexec e (xinit n) ops in
+  xstep e x o = (x', Err k) -> xview e frac x' = xview e frac x /\ eqv (xs x) (xs x').
+Proof. exact x_atomic. Qed.
+Print Assumptions C18_cellspace_atomic_growing_population.
+
+(* (3) all_cells / empties as CellCollection: cells, agents, select_random_cell, select_random_agent are exact *)
+Theorem C06_collection_cells_exact : forall e s w c,
+  (In c (coll_cells e s w) <-> In c (cells_dom e) /\ (w = CEmpties -> content s c = [])) /\ NoDup (coll_cells e s w).
+Proof. exact (fun e s w c => conj (coll_cells_spec e s w c) (coll_cells_NoDup e s w)). Qed.
+Print Assumptions C06_collection_cells_exact.
+
+Theorem C06_collection_agents_exact : forall e s w a,
+  In a (coll_agents e s w) <-> exists c, In c (coll_cells e s w) /\ In a (content s c).
+Proof. exact coll_agents_spec. Qed.
+Print Assumptions C06_collection_agents_exact.
+
+Theorem C06_collection_random_cell : forall e x w out x' r,
+  xstep e x (CollRandomCell w out) = (x', Ok r) ->
+  x' = x /\ exists c, out = Some c /\ r = [c] /\ In c (cells_dom e) /\ (w = CEmpties -> content (xs x) c = []).
+Proof. exact coll_random_spec. Qed.
+Print Assumptions C06_collection_random_cell.
+
+Theorem C06_collection_random_agent : forall e x w out x' r,
+  xstep e x (CollRandomAgent w out) = (x', Ok r) ->
+  x' = x /\ exists a c, out = Some a /\ r = [a] /\ In c (cells_dom e) /\ In a (content (xs x) c) /\ w = CAll.
+Proof. exact coll_random_agent_spec. Qed.
+Print Assumptions C06_collection_random_agent.
+
+Theorem C06_collection_choice_complete : forall l x, In x l -> choice l (Some x) = Ok [x].
+Proof. exact choice_complete. Qed.
+Print Assumptions C06_collection_choice_complete.
+
+(* (4) documented boundary: capacity 0 never rejects and calls the EMPTY cell full; a fractional capacity num/den admits
+   exactly like ceil(num/den) and is never full; an integral one is the integer capacity *)
+Theorem C06_capacity_zero_boundary : forall e s c,
+  e_cap e c = Some 0 -> rejects e s c = false /\ is_full e s c = is_empty s c.
+Proof. exact capacity_zero. Qed.
+Print Assumptions C06_capacity_zero_boundary.
+
+Theorem C06_float_capacity_boundary : forall num den n, 0 < den -> 0 < num ->
+  q_rejects num den n = (n >=? q_ceil num den) /\ (num mod den <> 0 -> q_full num den n = false).
+Proof. exact (fun num den n Hd Hn => conj (q_rejects_ceil num den n Hd Hn) (q_full_frac num den n Hd)). Qed.
+Print Assumptions C06_float_capacity_boundary.
+
+Theorem C06_integral_float_capacity : forall k den n, 0 < den ->
+  q_rejects (k * den) den n = (negb (k =? 0) && (n >=? k)) /\ q_full (k * den) den n = (n =? k).
+Proof. exact q_integral. Qed.
+Print Assumptions C06_integral_float_capacity.
+
 Example C06_example_mirror_capacity_views :
   let s := exec ex_env init ex_ops in
   ptr s 1 = Some 0 /\ content s 0 = [1] /\ content s 1 = [2] /\ content s 2 = [4] /\ reg s 1 = true /\
@@ -433,4 +531,17 @@ Example C06_example_source :
   snd (gen_step ex_env (gen_exec ex_env init ex_ops) (Move2D 4 [78; 111; 114; 116; 104] 3)) = Err E_NODIR /\
   gen_empties ex_env (gen_exec ex_env init ex_ops) = [3] /\
   gen_is_full ex_env (gen_exec ex_env init ex_ops) 0 = true.
+Proof. vm_compute. repeat split; reflexivity. Qed.
+
+Example C06_example_round3 :
+  let ops := [Api (SetCell 1 (Some 0)); NewAgent; Api (SetCell 5 (Some 3)); CollView CAll; CollRandomAgent CEmpties None;
+              CollRandomCell CEmpties (Some 1); CollRandomAgent CAll (Some 5); Api (SetCell 5 (Some 0))] in
+  api_only ops = true /\
+  born (xexec ex_env (xinit 4) ops) = 4 /\            (* ex_env knows 4 agents: NewAgent is not applicable *)
+  map snd [xstep ex_env (xinit 3) NewAgent] = [Ok [4]] /\
+  snd (xstep ex_env (xexec ex_env (xinit 4) [Api (SetCell 1 (Some 0))]) (CollView CAll)) = Ok [4; 0; 1; 2; 3; -9; 1] /\
+  snd (xstep ex_env (xexec ex_env (xinit 4) [Api (SetCell 1 (Some 0))]) (CollRandomAgent CEmpties None)) = Err E_NOEMPTY /\
+  snd (xstep ex_env (xexec ex_env (xinit 4) [Api (SetCell 1 (Some 0))]) (CollRandomCell CEmpties (Some 0))) = Illegal /\
+  snd (xstep ex_env (xexec ex_env (xinit 4) [Api (SetCell 1 (Some 0))]) (CellAdd 0 2)) = Err E_FULL /\
+  q_rejects 5 2 2 = false /\ q_rejects 5 2 3 = true /\ q_full 5 2 3 = false /\ q_ceil 5 2 = 3.
 Proof. vm_compute. repeat split; reflexivity. Qed.
